@@ -379,10 +379,10 @@ def _check_pddl(ctx, problem, el, durative, roundtrip, env):
         ctx.check(h.lower() not in reserved, "pddl:keyword-emitted:" + h.lower(), f"domain/problem name {h!r} is a reserved word")
     ctx.check(decl["heads"][0] == decl["heads"][2], "pddl:text-lookup-mismatch", f"(domain {decl['heads'][0]}) vs (:domain {decl['heads'][2]})")
     if roundtrip:
-        _roundtrip_pddl(ctx, problem, el, domain, ptext, flat)
+        _roundtrip_pddl(ctx, problem, el, domain, ptext, flat, {t: w.get_pddl_name(t) for t in el["types"]})
 
 
-def _roundtrip_pddl(ctx, problem, el, domain, ptext, flat):
+def _roundtrip_pddl(ctx, problem, el, domain, ptext, flat, type_names):
     import warnings
 
     from unified_planning.io import PDDLReader
@@ -394,7 +394,9 @@ def _roundtrip_pddl(ctx, problem, el, domain, ptext, flat):
     except Exception as e:  # a reader that rejects the writer's output: evidence that a name is not acceptable PDDL
         ctx.fail("pddl:reader-rejects", f"PDDLReader rejects the emitted text ({type(e).__name__}: {str(e)[:200]}); names {_names(el)}")
     nt = len([t for t in q.user_types if t.name != "object"])
-    want_t = len([t for t in el["types"] if not (t.name == "object" and flat)])
+    # the user type that is EMITTED as 'object' is the predefined root type (the writer's deliberate identification: a type called
+    # 'object', or 'Object' -- PDDL is case-insensitive -- when no other type has taken that name)
+    want_t = len([t for t in el["types"] if not (type_names[t] == "object" and flat)])
     got = (nt, len(q.fluents), len(q.actions), len(q.all_objects))
     want = (want_t, len(problem.fluents), len(problem.actions), len(problem.all_objects))
     ctx.check(got == want, "pddl:reader-count-mismatch", f"re-read PDDL has (types, fluents, actions, objects) = {got}, written {want}; names {_names(el)}")
